@@ -498,6 +498,75 @@ func runC17(r *Run) {
 	} else {
 		r.Bad("R4", "anchor/feemarket.ExportGenesis", "", "not found")
 	}
+	// R10: the floor holds on every exit
+	r.Rule("R10", "PATH.floor-on-every-exit: 'never below the configured minimum gas price … and therefore monotone in g' — every return of CalculateBaseFee that yields a computed fee (after the enabled / first-block exits) passes math.BigMax(…, minGasPrice). With the floor applied in the decrease branch only, a parent base fee below the minimum (governance raised MinGasPrice, or the default genesis: base fee 1e9 against a minimum of 20e9) stays below it while blocks are at or above target, and an emptier block yields a higher fee than a fuller one")
+	{
+		isFloor := func(in ssa.Instruction) bool {
+			c, ok := in.(*ssa.Call)
+			if !ok || callInfo(c).Name != "BigMax" {
+				return false
+			}
+			return backSlice(c.Call.Args...).HasField("Params", "MinGasPrice")
+		}
+		// start after the parent base fee has been read (the exits before it are 'disabled' / 'first block')
+		var start ssa.Instruction
+		eachCall(cb, func(ci CallInfo) {
+			if ci.Name == "GetBlockGasWanted" && start == nil {
+				start = ci.Instr
+			}
+		})
+		var w []ssa.Instruction
+		if start != nil {
+			w = PathQuery{Fn: cb, Start: start, Block: isFloor, Target: func(in ssa.Instruction) bool {
+				ret, ok := in.(*ssa.Return)
+				return ok && len(ret.Results) == 1 && !isNilConst(stripValue(ret.Results[0]))
+			}}.Search()
+		}
+		r.Check(start != nil && w == nil, "R10", fnID(cb)+"#floor-on-every-exit", P.Pos(fnPos(cb)), "every computed result passes BigMax(…, minGasPrice)",
+			"CalculateBaseFee returns a computed base fee without applying the minimum-gas-price floor (the 'unchanged' and 'increase' branches): below-minimum fees persist through busy blocks and the result is not monotone in the gas figure", P.witness(w)...)
+	}
+	// R9: what the formula divides by cannot be zero
+	r.Rule("R9", "TABLE.divisors-validated-non-zero: every feemarket parameter that CalculateBaseFee divides by (the second operand of a big.Int Div/Quo derives from Params.<F>: ElasticityMultiplier for the target, BaseFeeChangeDenominator for the step) is compared with zero in Params.Validate — the gate of genesis import and of MsgUpdateParams; a zero that passes validation makes the next BeginBlock panic with a division by zero, on every node: the chain halts")
+	{
+		divisors := map[string]bool{}
+		eachCall(cb, func(ci CallInfo) {
+			if !(ci.Name == "Div" || ci.Name == "Quo") || ci.Recv != "Int" || ci.PkgPath != "math/big" {
+				return
+			}
+			a := ci.Instr.Common().Args
+			backSlice(a[len(a)-1]).Any(func(v ssa.Value) bool {
+				if sn, f, ok := fieldOfAddr(v); ok && sn == "Params" {
+					divisors[f] = true
+				}
+				if sn, f, ok := fieldOfValue(v); ok && sn == "Params" {
+					divisors[f] = true
+				}
+				return false
+			})
+		})
+		pv, ok := P.FnOK("(x/feemarket/types.Params).Validate")
+		if !ok || len(divisors) == 0 {
+			r.Bad("R9", "anchor/Params.Validate+divisors", "", fmt.Sprintf("Params.Validate not found or no parameter divisor identified in CalculateBaseFee (%d)", len(divisors)))
+		} else {
+			for _, f := range sortedKeys(divisors) {
+				checked := false
+				eachInstr(pv, func(in ssa.Instruction) {
+					b, ok := in.(*ssa.BinOp)
+					if !ok {
+						return
+					}
+					isF := func(v ssa.Value) bool { return backSlice(v).HasField("Params", f) }
+					isZero := func(v ssa.Value) bool { n, ok := constInt(v); return ok && n == 0 }
+					if (isF(b.X) && isZero(b.Y) || isF(b.Y) && isZero(b.X)) && valueBranches(b, 0) {
+						checked = true
+					}
+				})
+				r.Check(checked, "R9", fnID(pv)+"#rejects-zero-"+f, P.Pos(fnPos(pv)), "compared with zero",
+					"CalculateBaseFee divides by Params."+f+" but Params.Validate never compares it with zero: a governance parameter change or a genesis file with "+f+" = 0 is accepted and the first BeginBlock afterwards panics (division by zero) on every node")
+			}
+		}
+		r.Floor("R9", "feemarket parameters used as divisors", len(divisors), 2)
+	}
 	// R8: the block's declared-gas counter is a plain running sum
 	r.Rule("R8", "SHAPE.declared-gas-is-a-plain-sum: AddTransientGasWanted stores GetTransientGasWanted() + gasWanted itself — the declared gas of a block's transactions may legitimately exceed the block gas limit (the limit bounds gas used), so a counter that saturates at the limit caps the figure at the target and the base fee never rises")
 	if ag, ok := P.FnOK("(x/feemarket/keeper.Keeper).AddTransientGasWanted"); ok {
